@@ -17,6 +17,21 @@ def Published (c : Cfg) (s : State) (t : Tid) : Prop :=
     ∃ sl, s.slots[((s.th t).idx + i') % c.cap]? = some sl ∧
       sl.ver = expVer c.cap ((s.th t).idx + i') (s.th t).dir ∧ sl.owner = none
 
+theorem filterMap_set_same {α β : Type} (f : α → Option β) : ∀ (l : List α) (k : Nat) (x y : α),
+    l[k]? = some x → f y = f x → (l.set k y).filterMap f = l.filterMap f
+  | [], _, _, _, h, _ => by simp at h
+  | z :: zs, 0, x, y, h, hf => by
+    simp only [List.getElem?_cons_zero, Option.some.injEq] at h
+    subst h
+    simp only [List.set_cons_zero, List.filterMap_cons, hf]
+  | z :: zs, k + 1, x, y, h, hf => by
+    simp only [List.getElem?_cons_succ] at h
+    simp only [List.set_cons_succ, List.filterMap_cons, filterMap_set_same f zs k x y h hf]
+
+theorem cacheToks_set_owner (s : State) (k : Nat) (sl : Slot) (o : Option Owner) (h : s.slots[k]? = some sl) :
+    cacheToks (s.setSlot k { sl with owner := o }) = cacheToks s :=
+  filterMap_set_same (fun x : Slot => x.val) s.slots k sl _ h rfl
+
 theorem rdVer_match_step {c : Cfg} {s : State} {t : Tid} {sl : Slot}
     (hpc : (s.th t).pc = .rdVer) (hsl : s.slots[((s.th t).idx + (s.th t).i) % c.cap]? = some sl)
     (hv : sl.ver = expVer c.cap ((s.th t).idx + (s.th t).i) (s.th t).dir) (ho : sl.owner = none) :
@@ -70,11 +85,7 @@ theorem wait_exits_when_published {c : Cfg} (hcap : 0 < c.cap) :
           (by rw [hth]; simpa using hlast) (by rw [hth]; simp only; omega) hpub1
       refine ⟨s', hrun, h1, by rw [h2, hth], by rw [h3], by rw [h4], by rw [h5], by rw [h6], ?_⟩
       rw [h7]
-      have := cacheToks_setSlot s (((s.th t).idx + (s.th t).i) % c.cap) sl
-        { sl with owner := some ⟨t, (s.th t).idx + (s.th t).i, (s.th t).dir⟩ }
-      show cacheToks (s.setSlot _ _) = cacheToks s
-      apply List.perm_iff_count.mp |> fun _ => ?_
-      sorry
+      exact cacheToks_set_owner s _ sl _ hsl
     · -- that was the last slot
       have hw : waitOrGo { s.th t with i := (s.th t).i + 1 } = { s.th t with i := (s.th t).i + 1, pc := .fAcq } := by
         unfold waitOrGo; simp [hlast]
@@ -82,6 +93,6 @@ theorem wait_exits_when_published {c : Cfg} (hcap : 0 < c.cap) :
       have hk0 : k = 0 := by omega
       subst hk0
       refine ⟨_, rfl, by simp [State.setTh], by simp [State.setTh], rfl, rfl, rfl, rfl, ?_⟩
-      sorry
+      exact cacheToks_set_owner s _ sl _ hsl
 
 end Babylon.Pages
